@@ -24,12 +24,12 @@ TABLES = {1: "compare(baseline, contender)", 2: "compare(contender, baseline)", 
           4: "compare(contender, contender)", 5: "plain table", 6: "markdown report", 7: "csv report"}
 
 
-def slots_from_tlc(res):
-    """The slot table is defined in Compare.tla and printed by MC_Compare (ASSUME PrintT(<<"SLOTS", SlotSeq>>))."""
+def printed_by_tlc(res, tag):
+    """A constant of Compare.tla printed by MC_Compare (ASSUME PrintT(<<tag, value>>)), possibly pretty-printed over many lines."""
     out = res.out
-    m = re.search(r'<<\s*"SLOTS"', out)
+    m = re.search(r'<<\s*"%s"' % tag, out)
     if not m:
-        raise tlc.MachineryError("slot table not printed by TLC")
+        raise tlc.MachineryError("%s table not printed by TLC" % tag)
     at = m.start()
     depth = 0
     i = at
@@ -45,11 +45,20 @@ def slots_from_tlc(res):
                 break
             continue
         i += 1
-    val = parse_value(out[at:i])
-    slots = [to_json(s) for s in val[1]]
+    return parse_value(out[at:i])[1]
+
+
+def slots_from_tlc(res):
+    """The slot table is defined in Compare.tla and printed by MC_Compare (ASSUME PrintT(<<"SLOTS", SlotSeq>>))."""
+    slots = [to_json(s) for s in printed_by_tlc(res, "SLOTS")]
     for s in slots:
         ci.label(s)
     return slots
+
+
+def naming_from_tlc(res):
+    """The naming modes of the op_metrics records (NamingSeq of Compare.tla); index = mode."""
+    return [to_json(r) for r in printed_by_tlc(res, "NAMING")]
 
 
 def probe_switches(runner):
@@ -69,7 +78,7 @@ def trace_cfg(D, sw):
 
 
 # ---------------------------------------------------------------------------------------------------
-def random_struct_pair(rnd, slots, D):
+def random_struct_pair(rnd, slots, D, modes=1):
     """Independent values per metric; D = 10^6: fine-grained small numbers, D = 1000: wide numbers."""
     n = len(slots)
 
@@ -115,7 +124,10 @@ def random_struct_pair(rnd, slots, D):
     ents = [[1, 2], [1, 2], [1, 2], [1], [2], []]
     eb = rnd.choice(ents)
     ec = eb if mode < 0.15 else rnd.choice(ents)
-    return {"E": list(eb), "v": bv}, {"E": list(ec), "v": cv}
+    # naming of the task records: half of the races plain, the others with colliding task / operation names (Compare.tla, NamingSeq)
+    nb = rnd.randrange(modes) if rnd.random() < 0.5 else 0
+    nc = nb if rnd.random() < 0.5 else (rnd.randrange(modes) if rnd.random() < 0.5 else 0)
+    return {"E": list(eb), "nm": nb, "v": bv}, {"E": list(ec), "nm": nc, "v": cv}
 
 
 def dec(v, D):
@@ -239,7 +251,8 @@ def run(ctx, out):
 
     root = os.path.join(tlc.scratch("c20races"), "root")
     os.makedirs(root, exist_ok=True)
-    runner = ci.Runner(slots, root)
+    naming = naming_from_tlc(res)
+    runner = ci.Runner(slots, root, naming)
     sw = probe_switches(runner)
     out.extra["implementation_variant"] = sw
     out.note("implementation variant (selects the L2 transcription only): %s" % sw)
@@ -251,12 +264,12 @@ def run(ctx, out):
     marks = {"improve": 0, "regress": 0, "neutral": 0, "rows": 0}
     states = [st for st in parse_dump(dump + ".dump" if os.path.exists(dump + ".dump") else dump) if st["done"]]
     # the dump order depends on TLC's worker scheduling: fix it
-    states.sort(key=lambda st: (sorted(st["variant"]["eb"]), sorted(st["variant"]["ec"]), st["variant"]["shift"], st["variant"]["proc"], tuple(st["pair"])))
+    states.sort(key=lambda st: (sorted(st["variant"]["eb"]), sorted(st["variant"]["ec"]), st["variant"]["nb"], st["variant"]["nc"], st["variant"]["shift"], st["variant"]["proc"], tuple(st["pair"])))
     for st in states:
         for k in marks:
             marks[k] += st["out"][k]
-        B = {"E": sorted(st["B"]["E"]), "v": list(st["B"]["v"])}
-        C = {"E": sorted(st["C"]["E"]), "v": list(st["C"]["v"])}
+        B = {"E": sorted(st["B"]["E"]), "nm": st["B"]["nm"], "v": list(st["B"]["v"])}
+        C = {"E": sorted(st["C"]["E"]), "nm": st["C"]["nm"], "v": list(st["C"]["v"])}
         proc = bool(st["variant"]["proc"])
         it = chk.make_item("s%d" % len(items), B, C, proc, D)
         out.add_case((B, C, proc), nontrivial=bool(it and it["fwd"]))
@@ -279,7 +292,7 @@ def run(ctx, out):
         rnd = random.Random(ctx.seed * 7919 + 20 + gi)
         ritems = []
         for k in range(n):
-            B, C = random_struct_pair(rnd, slots, Dr)
+            B, C = random_struct_pair(rnd, slots, Dr, len(naming))
             proc = rnd.random() < 0.5
             it = chk.make_item("r%d-%d" % (gi, k), B, C, proc, Dr)
             out.add_case((B, C, proc, Dr), nontrivial=bool(it and it["fwd"]))
@@ -293,10 +306,12 @@ def run(ctx, out):
 
 
 def replay(ctx, case):
-    res = _slots_only()
+    res, naming = _slots_only()
     root = os.path.join(tlc.scratch("c20races"), "root")
     os.makedirs(root, exist_ok=True)
-    runner = ci.Runner(res, root)
+    runner = ci.Runner(res, root, naming)
+    case["B"].setdefault("nm", 0)
+    case["C"].setdefault("nm", 0)
     sw = probe_switches(runner)
     it = {"id": "replay", "proc": bool(case["proc"]), "B": case["B"], "C": case["C"]}
     try:
@@ -328,4 +343,4 @@ def _slots_only():
     with open(os.path.join(wd, "Slots.cfg"), "w", encoding="utf-8") as f:
         f.write("SPECIFICATION Spec\nCONSTANTS\n  Values = {}\n  D = 1000000\n  Variants = {}\n  AbsBaseline = TRUE\n  ZeroBaselineSigned = TRUE\nCHECK_DEADLOCK FALSE\n")
     res = tlc.run_tlc(wd, "MC_Compare", "Slots.cfg", timeout=120, workers=1)
-    return slots_from_tlc(res)
+    return slots_from_tlc(res), naming_from_tlc(res)
